@@ -104,6 +104,11 @@ func c01Check(ctx *core.Ctx, kind, in string, big bool) (res c01Result) {
 		tickStart(budget)
 		mon.BeginParse()
 		e, err, ok := parse(ctx, in, df)
+		if !ok {
+			// a panic or an exhausted step budget: reported; nothing more to learn from this case
+			res.ticks += tickStop()
+			continue
+		}
 		if ok {
 			ctx.Count("calls_Parse", 1)
 			limit := int64(4*ntok + 4)
